@@ -147,13 +147,35 @@ impl CacheKey for RowIdIndexKey {
 #[derive(Debug)]
 pub struct RowIdSequenceKey {
     pub fragment_id: u64,
+    /// Identifies the stored sequence itself. Fragment ids are reused when a
+    /// dataset is overwritten, so the fragment id alone is not a unique key.
+    pub fingerprint: u64,
+}
+
+impl RowIdSequenceKey {
+    pub fn fingerprint_of(parts: &[&[u8]]) -> u64 {
+        // FNV-1a, stable across processes
+        let mut hash: u64 = 0xcbf29ce484222325;
+        for part in parts {
+            for byte in part.iter() {
+                hash ^= *byte as u64;
+                hash = hash.wrapping_mul(0x100000001b3);
+            }
+            hash ^= 0xff;
+            hash = hash.wrapping_mul(0x100000001b3);
+        }
+        hash
+    }
 }
 
 impl CacheKey for RowIdSequenceKey {
     type ValueType = RowIdSequence;
 
     fn key(&self) -> Cow<'_, str> {
-        Cow::Owned(format!("row_id_sequence/{}", self.fragment_id))
+        Cow::Owned(format!(
+            "row_id_sequence/{}/{:016x}",
+            self.fragment_id, self.fingerprint
+        ))
     }
 }
 
